@@ -33,6 +33,7 @@ type Case struct {
 	Pool      int      `json:"pool"`
 	TCPMux    bool     `json:"tcpmux"`
 	Quota     bool     `json:"quota"` // maxPortsPerClient == exactly what the session needs
+	Intruder  bool     `json:"intruder"` // after every group registration another session tries to join that group with a wrong key
 }
 
 func portUsers(types []string) int {
@@ -71,6 +72,7 @@ func gen(t *rapid.T) Case {
 	c.Pool = rapid.IntRange(0, 2).Draw(t, "pool")
 	c.TCPMux = rapid.Bool().Draw(t, "tcpmux")
 	c.Quota = rapid.Bool().Draw(t, "quota")
+	c.Intruder = rapid.Bool().Draw(t, "intruder")
 	return c
 }
 
@@ -370,6 +372,20 @@ func run(c Case) error {
 			}
 			if resp.Error != "" {
 				return fmt.Errorf("%s: registration of %s refused: %s", when, ty, resp.Error)
+			}
+			if strings.Contains(ty, "-group") && c.Intruder {
+				// another session tries to join the group with a wrong key: refused, and it must leave no trace either -
+				// in particular it must not detach the group from its bookkeeping
+				im := pxyMsg(s, ty, false)
+				im.ProxyName, im.GroupKey = "intruder-"+ty, "not-the-key"
+				ir, ie := by.NewProxy(im, 6*time.Second)
+				if ie != nil {
+					return fmt.Errorf("%s: no answer to a wrong-key join of %s: %v", when, ty, ie)
+				}
+				if ir.Error == "" {
+					_ = by.CloseProxy(im.ProxyName)
+					return fmt.Errorf("%s: a join of %s with a wrong group key was accepted", when, ty)
+				}
 			}
 		}
 		return nil
